@@ -20,7 +20,7 @@ RULE = ('operations over a universe of 16 rules (shared and splitting prefixes, 
         'history: probes on ~30 paths x 2 verbs + names + rules + routes + WSGI hook traces, real vs freshly built. Non-trivial = the history '
         'contains a removal or a rejected operation; distinct = distinct history.')
 PYOPT = {'quick': 1, 'thorough': 1}     # one unit of every kind is also served by an interpreter started with -O (assert statements compiled out)
-REQUIRED = ['units_run_under_python_-O', 'scoped_404_reference_checked', 'op_add_scoped_404_handler', 'scoped_404_handler_calls_compared', 'wsgi_probes_below_a_mount_point', 'op_add_method_on_the_route_object', 'scripted_histories', 'op_add_method_list', 'histories', 'ops_applied', 'ops_rejected', 'resolve_probes', 'name_probes', 'wsgi_probes', 'hook_firings_compared', 'structure_checks',
+REQUIRED = ['units_run_under_python_-O', 'op_through_another_spelling_of_the_rule', 'scoped_404_reference_checked', 'op_add_scoped_404_handler', 'scoped_404_handler_calls_compared', 'wsgi_probes_below_a_mount_point', 'op_add_method_on_the_route_object', 'scripted_histories', 'op_add_method_list', 'histories', 'ops_applied', 'ops_rejected', 'resolve_probes', 'name_probes', 'wsgi_probes', 'hook_firings_compared', 'structure_checks',
             'op_add', 'op_remove', 'op_remove_name', 'op_remove_prefix', 'op_add_hook', 'op_remove_hook', 'op_overwrite', 'rejected_method_clash',
             'rejected_name_clash', 'hook_reference_checked', 'removed_then_probed', 'hook_only_prefix_probed']
 EXHAUSTIVE = {'quick': True, 'thorough': True, 'quick_note': 'all histories of length <= 2 over the 76-operation alphabet',
@@ -63,8 +63,16 @@ EXTRA_PATHS = ['/a/é', '/a/日本/c', '/é/d', '/a/b/zé', '/a/é/nothing', '/a
 PREFIXES = ['/a*', '/a/*', '/h/*', '/q*', '/a/b*', '/s/*']
 
 
+# other spellings of rules of the universe (same pattern, same wildcard names): they address the same route
+ALIASES = {'/a/:x': '/a/<x>', '/a/{x}/c': '/a/<x>/c', '/i/{n:int}/e': '/i/<n:int>/e', '/<y:re:[^/]+>/d'[:0] + '/:y/d': '/<y>/d'}
+
+
 def alphabet():
     ops = []
+    for alias in ALIASES:
+        ops.append(('add', alias, 'GET', None, False))
+        ops.append(('add', alias, 'PUT', 'n2', False))
+        ops.append(('remove', alias))
     for r in RULES:
         ops.append(('add', r, 'GET', None, False))
         ops.append(('add', r, 'POST', None, False))
@@ -160,6 +168,9 @@ class Sys:
     def update_model(self, ctx, op, out, hid, kid):
         kind = op[0]
         ok = out == 'ok'
+        if kind in ('add', 'remove') and op[1] in ALIASES:
+            ctx.count('op_through_another_spelling_of_the_rule')
+            op = (op[0], ALIASES[op[1]]) + tuple(op[2:])
         if kind == 'add':
             _, rule, meth, name, ow = op
             ctx.count('op_overwrite' if ow else 'op_add')
@@ -458,7 +469,7 @@ def compare(ctx, real, hist, tag):
     for name in ('n1', 'n2', 'nx'):
         a, b = ra.router[name], fa.router[name]
         ctx.count('name_probes')
-        if (a.rule if a else None) != (b.rule if b else None):
+        if (a.pattern if a else None) != (b.pattern if b else None):      # (the rule text of a route is that of its first registration: spellings may differ)
             ctx.violation('lookup-by-name-differs-from-fresh-router', f'{where}: router[{name!r}] real {a} fresh {b}', wit)
             return False
     for rule in RULES:
@@ -470,10 +481,10 @@ def compare(ctx, real, hist, tag):
             b = fa.router[{rule}]
         except Exception as e:  # noqa
             b = 'raised:' + type(e).__name__
-        ka = a if isinstance(a, str) else (a.rule if a else None)
-        kb = b if isinstance(b, str) else (b.rule if b else None)
+        ka = a if isinstance(a, str) else (a.pattern if a else None)
+        kb = b if isinstance(b, str) else (b.pattern if b else None)
         # a filter-family sibling occupying the position may make the lookup itself disagree about filters: compare presence by model
-        exp = rule if rule in real.routes else None
+        exp = RULES[rule][0] if rule in real.routes else None
         if ka != kb and not (isinstance(ka, str) and ka.startswith('raised')):
             ctx.violation('lookup-by-rule-differs-from-fresh-router', f'{where}: router[{{{rule!r}}}] real {ka} fresh {kb}', wit)
             return False
@@ -650,6 +661,11 @@ def scripted_histories():
         out.append([('add', r, 'GET', None, False), ('add_hook', '/a/<w>'), ('add_direct', r, 'PUT')])
         out.append([('add_hook', '/a/<w>'), ('add', r, 'GET', None, False), ('remove_hook', '/a/<w>'), ('add_direct', r, 'PUT')])
         out.append([('add_hook', '/a/<w>'), ('add', r, 'GET', None, False), ('add_direct', r, 'PUT'), ('remove', r), ('add', r, 'PUT', None, False)])
+    for alias, canon in ALIASES.items():
+        out.append([('add', canon, 'GET', None, False), ('remove', alias), ('add', canon, 'GET', None, False)])
+        out.append([('add', alias, 'GET', None, False), ('remove', canon), ('add', alias, 'POST', None, False)])
+        out.append([('add', canon, 'GET', 'n1', False), ('add', alias, 'POST', None, False), ('remove_name', 'n1'), ('add', alias, 'GET', None, False)])
+        out.append([('add', canon, 'GET', None, False), ('remove', alias), ('add', alias, 'GET', None, False), ('remove', canon), ('add', canon, 'PUT', None, False)])
     for named, other in ((SEL1, SEL0), (SEL1, SEL2), (SEL0, SEL1), (SEL2, SEL0)):
         base = [('add', named, 'GET', 'n1', False), ('add', other, 'GET', None, False)]
         out.append(base + [('remove_name', 'n1')])
